@@ -145,7 +145,7 @@ func genValsetHist(r *Rng, i int, tier string) []string {
 	dels := map[string]int64{} // "acct>val" -> delegated
 	for j := 0; j < nv; j++ {
 		tk := r.Pick(1000000, 2000000, 1000000000, 1000000000, r.Range(1e6, 5e9))
-		if nv == 1 && tk < 2000000 {
+		if j == 0 && tk < 2000000 {
 			tk = 2000000
 		}
 		total += tk
@@ -165,6 +165,18 @@ func genValsetHist(r *Rng, i int, tier string) []string {
 		vals = append(vals, fmt.Sprintf("v%d", j))
 	}
 	budget := total / 20 // stake movement the ante rule still allows in this 12 h window
+	valTot := func(v string) int64 {
+		var t int64
+		for k, x := range dels {
+			if strings.HasSuffix(k, ">"+v) {
+				t += x
+			}
+		}
+		return t
+	}
+	// v0 always keeps two whole tokens: the property quantifies over sets with total power >= 2 (below that the
+	// threshold is 0 and with no powered validator at all there is no chain)
+	keep := func(v string, amt int64) bool { return v != "v0" || valTot(v)-amt >= 2000000 }
 	pickDel := func() (string, string, int64) {
 		var ks []string
 		for k, v := range dels {
@@ -195,7 +207,7 @@ func genValsetHist(r *Rng, i int, tier string) []string {
 			if amt > have || r.Chance(1, 6) {
 				amt = have // full exit of this delegation (a validator's own: it leaves the set)
 			}
-			if amt > 0 && amt <= budget+budget/50 {
+			if amt > 0 && amt <= budget+budget/50 && keep(v, amt) {
 				add("undel %s %s %d", a, v, amt)
 				dels[a+">"+v] -= amt
 				total -= amt
@@ -208,7 +220,7 @@ func genValsetHist(r *Rng, i int, tier string) []string {
 			if amt > have {
 				amt = have
 			}
-			if amt > 0 && dst != v {
+			if amt > 0 && dst != v && keep(v, amt) {
 				add("redel %s %s %s %d", a, v, dst, amt)
 				dels[a+">"+v] -= amt
 				dels[a+">"+dst] += amt
